@@ -45,21 +45,44 @@ let ostring c =
 let z_of_small n = if n = 0 then M.Z0 else M.Z.of_nat (nat_of_int n)
 let ten = z_of_small 10
 let digit = Array.init 10 z_of_small
-let ztab : (string, M.z) Hashtbl.t = Hashtbl.create 64
+
+(* decimal conversion: through Int64 when the value has at most 62 bits (every value of a correct run:
+   UnixNano readings and math.MaxInt64 need 61..63 bits, so 63-bit values take the second path), otherwise
+   with the extracted Z.add / Z.mul / Z.div / Z.modulo *)
+let rec pos_bits = function M.XH -> 1 | M.XO p | M.XI p -> 1 + pos_bits p
+let rec int64_of_pos = function
+  | M.XH -> 1L
+  | M.XO p -> Int64.shift_left (int64_of_pos p) 1
+  | M.XI p -> Int64.logor (Int64.shift_left (int64_of_pos p) 1) 1L
+let rec pos_of_int64 (n : int64) =
+  if n = 1L then M.XH
+  else if Int64.logand n 1L = 0L then M.XO (pos_of_int64 (Int64.shift_right_logical n 1))
+  else M.XI (pos_of_int64 (Int64.shift_right_logical n 1))
+let z_of_string_slow s =
+  let neg = String.length s > 0 && s.[0] = '-' in
+  let acc = ref M.Z0 in
+  String.iteri (fun i c -> if not (i = 0 && neg) then begin
+      if c < '0' || c > '9' then failwith ("bad integer " ^ s);
+      acc := M.Z.add (M.Z.mul !acc ten) digit.(Char.code c - 48) end) s;
+  if neg then M.Z.opp !acc else !acc
 let z_of_string s =
-  match Hashtbl.find_opt ztab s with
-  | Some z -> z
-  | None ->
-    let neg = String.length s > 0 && s.[0] = '-' in
-    let acc = ref M.Z0 in
-    String.iteri (fun i c -> if not (i = 0 && neg) then begin
-        if c < '0' || c > '9' then failwith ("bad integer " ^ s);
-        acc := M.Z.add (M.Z.mul !acc ten) digit.(Char.code c - 48) end) s;
-    let z = if neg then M.Z.opp !acc else !acc in
-    if Hashtbl.length ztab < 100000 then Hashtbl.add ztab s z; z
+  let n = String.length s in
+  if n = 0 then failwith "empty integer"
+  else if n <= 18 then begin
+    match Int64.of_string_opt s with
+    | Some 0L -> M.Z0
+    | Some v when v > 0L -> M.Zpos (pos_of_int64 v)
+    | Some v -> M.Zneg (pos_of_int64 (Int64.neg v))
+    | None -> failwith ("bad integer " ^ s)
+  end else begin
+    (* up to 2^63-1 exactly *)
+    match Int64.of_string_opt s with
+    | Some v when v > 0L && Int64.to_string v = s -> M.Zpos (pos_of_int64 v)
+    | _ -> z_of_string_slow s
+  end
 let rec int_of_pos = function M.XH -> 1 | M.XO p -> 2 * int_of_pos p | M.XI p -> 2 * int_of_pos p + 1
 let int_of_z = function M.Z0 -> 0 | M.Zpos p -> int_of_pos p | M.Zneg p -> - (int_of_pos p)
-let string_of_z z =
+let string_of_z_slow z =
   if z = M.Z0 then "0" else begin
     let neg = (match z with M.Zneg _ -> true | _ -> false) in
     let z = ref (if neg then M.Z.opp z else z) in
@@ -68,6 +91,12 @@ let string_of_z z =
     let s = Buffer.contents b in
     let n = String.length s in
     (if neg then "-" else "") ^ String.init n (fun i -> s.[n - 1 - i]) end
+let string_of_z z =
+  match z with
+  | M.Z0 -> "0"
+  | M.Zpos p when pos_bits p <= 63 -> Int64.to_string (int64_of_pos p)
+  | M.Zneg p when pos_bits p <= 63 -> "-" ^ Int64.to_string (int64_of_pos p)
+  | _ -> string_of_z_slow z
 
 (* ---------- state ---------- *)
 let ops = ref M.list_queue
